@@ -299,6 +299,24 @@ theorem C43_fact_meta_formats :
        "return fmt.Sprintf(\"fe:%s:%s:%d:%d:%t:%s\", userID, tr.Matchers, splitInterval, currentInterval, tr.PartialResponse, strings.Join(replicaLabels, \",\"))"] :=
   ⟨rfl, rfl⟩
 
+/-- the purity assumption of the model (Model/CacheKey.lean): the generator has the one field
+    `resolutions`; its three methods have value receivers and use the receiver only to call
+    `generateQueryRangeCacheKey` and to read `len(t.resolutions)` / `t.resolutions[i]` — no field
+    is assigned, sliced, appended to or passed on; the pooled buffer is taken, reset, copied out by
+    `String()`, reset and only then given back. -/
+theorem C43_fact_generator_pure :
+    Thanos.Facts.cacheKeyGenFields = ["resolutions []int64"] ∧
+    Thanos.Facts.cacheKeyGenUses =
+      ["func (t thanosCacheKeyGenerator) GenerateCacheKey", "GenerateCacheKey: call t.generateQueryRangeCacheKey",
+       "func (t thanosCacheKeyGenerator) GenerateCacheKeyAlternatives",
+       "GenerateCacheKeyAlternatives: call t.generateQueryRangeCacheKey",
+       "func (t thanosCacheKeyGenerator) generateQueryRangeCacheKey",
+       "generateQueryRangeCacheKey: len(t.resolutions)", "generateQueryRangeCacheKey: t.resolutions[i]"] ∧
+    Thanos.Facts.rangeKeyBufferLife =
+      ["buf := queryRangeCacheKeyBufferPool.Get().(*bytes.Buffer)", "buf.Reset()", "cacheKey := buf.String()",
+       "buf.Reset()", "queryRangeCacheKeyBufferPool.Put(buf)", "return cacheKey"] :=
+  ⟨rfl, rfl, rfl⟩
+
 theorem C43_fact_should_cache :
     Thanos.Facts.shouldCacheBody =
       ["if thanosReqStoreMatcherGettable, ok := r.(ThanosRequestStoreMatcherGetter); ok {",
